@@ -3,8 +3,9 @@ real overlap search, real uniform-mesh mapping, real mesh filter and step-functi
 import itertools
 
 import numpy as _np
+import z3 as _z3
 
-from symx.core import AND, OR, NOT, IMPLIES, IFF, ITE, MAX, MIN, CLOSE
+from symx.core import AND, OR, NOT, IMPLIES, IFF, ITE, MAX, MIN, CLOSE, Sym
 from symx.engine import harness
 from symx import shims
 
@@ -13,6 +14,8 @@ import armi.reactor.blocks as blkmod
 import armi.reactor.composites as compmod
 import armi.reactor.components.component as cmod
 import armi.reactor.converters.uniformMesh as ummod
+import armi.reactor.cores as coresmod
+import armi.reactor.grids.structuredGrid as sgridmod
 import armi.utils.mathematics as mathmod
 import armi.utils.units as unitsmod
 from armi.reactor.converters.uniformMesh import UniformMeshGeometryConverter, UniformMeshGenerator, ParamMapper
@@ -506,6 +509,137 @@ def filtered_fuel_boundaries_keep_extremes(ctx, share):
     ctx.check("lowest bottom is first, highest top is last", AND(fb[0] == lowest, ft[-1] == highest))
 
 
+def _round(x, ndigits=None):
+    """round() that is the identity on proxies, returning the NORMAL FORM of the term: findAllMeshPoints collects the
+    elevations of neighbouring blocks in a set and relies on the rounding to merge the top of one block (bottom + step)
+    with the bottom of the next; as exact reals they are equal, the normal form makes them the same proxy."""
+    if not isinstance(x, Sym):
+        return round(x, ndigits)
+    e = _z3.simplify(x.e)
+    if _z3.is_rational_value(e):
+        return e.numerator_as_long() / e.denominator_as_long()
+    return Sym(e)
+
+
+shims.patch(coresmod, float=shims.float_shim, round=_round)
+shims.patch(sgridmod, np=shims.np_shim)
+STUBS_CORE = STUBS + ["grids.structuredGrid.np -> object-array aware numpy shim (cell base/top of a block whose axial bounds "
+                      "are symbolic)",
+                      "cores.float -> identity on proxies; cores.round -> identity on proxies, as normal form of the term (mesh "
+                      "elevations are rounded to 8 decimals by findAllMeshPoints: modelled as exact on reals)"]
+
+# (fuel bottom, fuel top, assembly height) of the fuel assemblies of the mini core
+# Candidate genuine defect (reported, not repaired): the decusping treats neither elevation 0 nor the top of the
+# assemblies as anchors.  A control boundary closer than minimumMeshSize to the assembly top REPLACES the top of the
+# common mesh (the uniform mesh no longer spans the assembly height), one closer than the minimum to elevation 0 leaves a
+# first cell thinner than the minimum.  Plain floats, mini core of this harness (fuel 25..125 of 175 cm):
+#   control 60..174, minimum 2 -> common mesh [25, 60, 125, 174]       (top 175 lost)
+#   control 1..60,   minimum 2 -> common mesh [1, 25, 60, 125, 175]    (first cell 0..1 thinner than 2)
+# While the flag is set the two obligations on the ends are required only when no control boundary lies within the
+# minimum of that end; set it to False to see the violations.
+KNOWN_DEFECT_decusp_ignores_assembly_ends = True
+FUEL_25_125 = (25.0, 125.0, 175.0)
+FUEL_SHORT = (40.0, 60.0, 100.0)
+
+
+FUEL_30_120 = (30.0, 120.0, 175.0)
+
+
+@harness("C11", bounds="the public generator: UniformMeshGenerator.generateCommonMesh (average core mesh + decusping) on a "
+                       "mini core of 2 real fuel assemblies (reflector/fuel/plenum, concrete meshes `fuel` and `fuel2`, "
+                       "identical unless fuel2 is given) and one real control assembly (duct/control/plenum/plenum) whose "
+                       "absorber bottom and top elevations are symbolic anywhere in the assembly (absorber >= 1 cm long, "
+                       ">= 1 cm from both assembly ends), minimum mesh size symbolic in [0.1,30] cm; every ordering / "
+                       "closeness of the control boundaries relative to the fuel boundaries is a solver path; coincide: "
+                       "one control boundary sits exactly on a fuel boundary", stubs=STUBS_CORE, qtimeout_ms=30000,
+         instances={"quick": [dict(fuel=FUEL_25_125), dict(fuel=FUEL_25_125, coincide="bottomOnFuelTop")],
+                    "thorough": [dict(fuel=FUEL_25_125, coincide="topOnFuelTop"),
+                                 dict(fuel=FUEL_25_125, coincide="bottomOnFuelBottom"),
+                                 dict(fuel=FUEL_SHORT), dict(fuel=FUEL_25_125, fuel2=FUEL_30_120),
+                                 dict(fuel=FUEL_25_125, fuel2=FUEL_30_120, coincide="bottomOnFuelTop")]})
+def decusped_common_mesh_keeps_material_boundaries(ctx, fuel, fuel2=None, coincide=None):
+    meshes = [fuel, fuel2 or fuel]
+    H = fuel[2]
+    fbs, fts = sorted(set(f[0] for f in meshes)), sorted(set(f[1] for f in meshes))
+    fb, ft = fbs[0], fts[-1]            # lowest fuel bottom, highest fuel top: the primary anchors
+    r, core, assems = _build.mk_core([(0, 0), (1, 0)], nblocks=3)
+    ctrl = _build.mk_assembly(4, name="control")
+    core.add(ctrl, core.spatialGrid[2, 0, 0])
+    cb = ctx.real("ctrlBottom", 1.0, H - 2.0)
+    ct = ctx.real("ctrlTop", 2.0, H - 1.0)
+    m = ctx.real("minSize", 0.1, 30.0)
+    if coincide == "bottomOnFuelTop":
+        cb = ft
+    elif coincide == "topOnFuelTop":
+        ct = ft
+    elif coincide == "bottomOnFuelBottom":
+        cb = fb
+    ctx.assume(ct - cb >= 1.0)
+    freeCtrl = [x for x, fixed in ((cb, ("bottomOnFuelTop", "bottomOnFuelBottom")), (ct, ("topOnFuelTop",)))
+                if coincide not in fixed]                    # the control boundaries that are inputs
+    for a, pts in zip(assems, meshes):
+        a[0].setType("reflector")
+        a[2].setType("plenum")
+        point_mesh(ctx, a, [0.0] + list(pts), "fuel assembly")
+    for b, t in zip(ctrl, ("duct", "control", "plenum", "plenum")):
+        b.setType(t)
+    point_mesh(ctx, ctrl, [0.0, cb, ct, (ct + H) / 2, H], "control assembly")
+    for a in core:
+        a.p.AziMesh = a.p.RadMesh = 1
+        for b in a:
+            b.p.axMesh = 1
+    ctx.check("flags of the mini core as intended",
+              AND(all(a.hasFlags(Flags.FUEL) for a in assems), ctrl.hasFlags(Flags.CONTROL),
+                  len(ctrl.getBlocks(Flags.CONTROL)) == 1, all(len(a.getBlocks(Flags.FUEL)) == 1 for a in assems)))
+    plain = UniformMeshGenerator(r, minimumMeshSize=None)
+    plain.generateCommonMesh()
+    avg = [float(x) for x in plain._commonMesh]
+    ctx.check("without a minimum size the common mesh is the average mesh of the fuel assemblies (the control assembly "
+              "has another number of blocks)",
+              len(avg) == 3 and all(abs(x - (p + q) / 2) <= 1e-9 * H for x, p, q in zip(avg, *meshes)))
+    fixed = sorted(set(avg + fbs + fts))
+    for x in freeCtrl:
+        for f in fixed:
+            ctx.assume(x != f)              # (coincidences with fuel boundaries: instances `coincide`)
+    cands = fixed + freeCtrl
+    gen = UniformMeshGenerator(r, minimumMeshSize=m)
+    try:
+        gen.generateCommonMesh()
+        raised = False
+    except ValueError:
+        raised = True
+    ctx.check("fails loudly exactly when a fuel bottom anchor and a fuel top anchor are closer than the minimum",
+              IFF(raised, OR(*[t - b < m for b in fbs for t in fts])))
+    if raised:
+        return
+    mesh = list(gen._commonMesh)
+    mreq = m
+    if ctx.canary:
+        mreq = m * ITE(AND(ct > ft + 20, m > 25), 1.5, 1)
+    ctx.check("result is not empty", len(mesh) >= 1)
+    for a, b in zip(mesh, mesh[1:]):
+        ctx.check("strictly increasing, no cell thinner than the minimum", AND(b > a, b - a >= mreq))
+    for x in mesh:
+        ctx.check("only candidate points (average mesh, fuel and control boundaries) are used",
+                  OR(*[x == p for p in cands]))
+    for name, f in (("lowest fuel bottom", fb), ("highest fuel top", ft)):
+        ctx.check("the %s boundary (anchor) is kept" % name, OR(*[x == f for x in mesh]))
+    for name, c, other in (("bottom", cb, ct), ("top", ct, cb)):
+        if not any(c is x for x in freeCtrl):
+            continue
+        free = AND(abs(c - other) >= m, *[abs(c - f) >= m for f in fbs + fts])
+        ctx.check("the control %s boundary is kept when no fuel boundary and no other control boundary is within the "
+                  "minimum" % name, IMPLIES(free, OR(*[x == c for x in mesh])))
+    topKept = mesh[-1] == H
+    firstCell = OR(mesh[0] >= m, mesh[0] == fb)        # (a fuel anchor below the minimum is kept all the same)
+    if KNOWN_DEFECT_decusp_ignores_assembly_ends:
+        topKept = IMPLIES(H - ct >= m, topKept)
+        firstCell = IMPLIES(cb >= m, firstCell)
+    ctx.check("the common mesh still ends at the top of the assemblies (spans the same height)", topKept)
+    ctx.check("the first cell (from elevation 0) is not thinner than the minimum, unless it ends at the fuel bottom "
+              "anchor", firstCell)
+
+
 # ---------------------------------------------------------------------------------------------------------------
 # (4) step-function resampling
 
@@ -681,9 +815,13 @@ def block_mesh_change_conserves_mass(ctx, mode):
 
 @harness("C11", bounds="the public entry point: makeAssemWithUniformMesh on a real source assembly (ns blocks, heights "
                        "and densities symbolic) with a symbolic new mesh of nd tops ending at the same height; builds "
-                       "homogenised destination blocks itself", stubs=STUBS, qtimeout_ms=30000,
-         instances={"quick": [dict(ns=2, nd=2)], "thorough": [dict(ns=3, nd=2), dict(ns=2, nd=3)]})
-def make_assembly_with_new_mesh_conserves_atoms(ctx, ns, nd):
+                       "homogenised destination blocks itself; option includePinCoordinates off / on (pins=True: the "
+                       "new blocks also carry place-holder pin components for the clad of the pin blocks)",
+         stubs=STUBS, qtimeout_ms=30000,
+         instances={"quick": [dict(ns=2, nd=2), dict(ns=2, nd=2, pins=True)],
+                    "thorough": [dict(ns=3, nd=2), dict(ns=2, nd=3), dict(ns=3, nd=2, pins=True),
+                                 dict(ns=2, nd=3, pins=True)]})
+def make_assembly_with_new_mesh_conserves_atoms(ctx, ns, nd, pins=False):
     # with the derived-shape coolant the components fill the hexagon, as the homogenised copy assumes
     src, hs = sym_assembly(ctx, ns, "s", coolant=True)
     fill_densities(ctx, src, "s")
@@ -694,8 +832,12 @@ def make_assembly_with_new_mesh_conserves_atoms(ctx, ns, nd):
         tops.append((tops[-1] if tops else 0.0) + d)
     tops.append(src[-1].p.ztop)
     before = {nuc: atoms(src, nuc) for nuc in ALLNUCS}
-    new = UniformMeshGeometryConverter.makeAssemWithUniformMesh(src, tops)
+    ctx.check("the source blocks are pin blocks with clad components", all(b.hasComponents(Flags.CLAD) for b in src))
+    new = UniformMeshGeometryConverter.makeAssemWithUniformMesh(src, tops, includePinCoordinates=pins)
     ctx.check("new assembly has one block per mesh cell", len(new) == nd)
+    if pins:
+        ctx.check("with includePinCoordinates every new block carries a clad-flagged pin place-holder",
+                  all(b.hasComponents(Flags.CLAD) for b in new))
     for j, b in enumerate(new):
         ctx.check_close("new block %d has the requested height" % j, b.getHeight(), hd[j], scale=H)
         ctx.check_close("new block %d top = mesh point" % j, b.p.ztop, tops[j], scale=H)
